@@ -110,7 +110,7 @@ func c01Oracle(e *gen.Expr, modes []lib.Mode, onlyMode, onlyKind string) (out []
 func init() { checks["C01"] = c01 }
 
 func c01(r *report.Run) {
-	slices := []*slice{sliceControl(), sliceScalar(), sliceAccess(), sliceLoops(), sliceNestType(), sliceAliases(), sliceCalls(), sliceKinds()}
+	slices := []*slice{sliceControl(), sliceScalar(), sliceAccess(), sliceLoops(), sliceNestType(), sliceAliases(), sliceCalls(), sliceKinds(), sliceMembership()}
 	runSlices(r, slices, func(sl *slice, e *gen.Expr, order int64) (int64, []string) {
 		ms, runs, outs := c01Oracle(e, sl.modes, "", "")
 		for _, m := range ms {
